@@ -98,7 +98,9 @@ CHECKS = {
              "any source) and C10_wrap_continues (a source supplied by yywrap continues in the unchanged condition, at BOL, nothing lost). "
              "Compiled scanners with <<EOF>> rules over subsets of conditions and 1-4 sources chained by yywrap are compared event by "
              "event with the machine; sources that report end of input and deliver more afterwards (user YY_INPUT): yywrap consulted once "
-             "per report, the tokens between two consultations judged by the proved validator against one piece.",
+             "per report, the tokens between two consultations judged by the proved validator against one piece. The assignment of <<EOF>> rules "
+             "to start conditions is the extracted Gallina function eof_assign (parse.y over sceof[]), with C10_eof_rule_is_the_first_covering, "
+             "C10_unqualified_eof_applies_to_exactly_the_conditions_lacking_their_own and C10_unlisted_condition_keeps_the_default.",
         design="DESIGN.md section 6 C10", technique="machine-checked proof (Rocq) about the executable specification + differential event streams"),
     "C11": dict(
         text="Rocq theorems about the buffer model (coq/Buffers.v): C11_other_buffers_untouched (for EVERY operation - create, scan_*, "
